@@ -46,10 +46,14 @@ def _same(a, b):
 def _spec_kwargs(spec):
     v = spec['variant']
     if v == 'sift':
-        return {'max_imfs': 2}
-    if v == 'mask_sift':
-        return {'max_imfs': 2, 'nphases': 2, 'nprocesses': spec['nproc'], 'mask_freqs': spec['mask_freqs']}
-    return {'max_imfs': 2, 'nensembles': 2, 'nprocesses': spec['nproc'], 'noise_mode': spec['noise_mode']}
+        kw = {'max_imfs': 2}
+    elif v == 'mask_sift':
+        kw = {'max_imfs': 2, 'nphases': 2, 'nprocesses': spec['nproc'], 'mask_freqs': spec['mask_freqs']}
+    else:
+        kw = {'max_imfs': 2, 'nensembles': 2, 'nprocesses': spec['nproc'], 'noise_mode': spec['noise_mode']}
+    if spec.get('imf_opts') is not None:
+        kw['imf_opts'] = dict(spec['imf_opts'])
+    return kw
 
 
 def _invoke(S, spec, verbose, flavour):
@@ -86,7 +90,8 @@ def scenario(w):
         specs.append({'variant': ch.choice('variant%d' % i, VARIANTS), 'x': x, 'signal': sdesc,
                       'nproc': 1 + ch.pick('nproc%d' % i, 2), 'seed': 777 + i,
                       'mask_freqs': ch.choice('mask_freqs%d' % i, ['zc', 0.2]),
-                      'noise_mode': ch.choice('noise_mode%d' % i, ['single', 'flip'])})
+                      'noise_mode': ch.choice('noise_mode%d' % i, ['single', 'flip']),
+                      'imf_opts': ch.choice('imf_opts%d' % i, [None, {'sd_thresh': 0.002}, {'sd_thresh': 0.3, 'env_step_size': 0.5}])})
     # references in the pristine, never-set-up state, no override
     refs = []
     for sp in specs:
